@@ -204,3 +204,52 @@ func post_ValidateChannel_complete(k Key, ch *Channel, res0 bool) bool { // and 
 	return res0 || !specBitPathCase(k) || !specCoversDepth(specTargetPath(k)) || !specCoversPlus(specTargetPath(k)) ||
 		vs.TraceFind("strings.Join") < 0 || !specCoversHash(k)
 }
+
+// ---------------------------------------------------------------------------------------------------------
+// Channel parsing on hostile input (property C09; key stripping for C02): ParseChannel runs on every SUBSCRIBE,
+// UNSUBSCRIBE and PUBLISH topic before any key check. Its three scanners are proved panic-free for ANY byte
+// string and TERMINATING (each loop has a variant that strictly decreases) - so one packet cannot hang the
+// connection goroutine or make the option list grow without bound.
+
+//@ verify (*Channel).parseKey pre=pre_Channel post=post_parseKey props=C09,C02
+//@ loop (*Channel).parseKey 0 inv inv_parseKey decreases=var_parseKey modifies=*
+func pre_Channel(c *Channel) bool { return c != nil }
+func inv_parseKey(i int, text []byte) bool {
+	return 0 <= i && i <= len(text) && vs.Forall(0, i, func(j int) bool { return text[j] != '/' })
+}
+func var_parseKey(i int, text []byte) int { return len(text) - i }
+func post_parseKey(c *Channel, text []byte, res0 int, res1 bool) bool {
+	// on success the key is everything before the FIRST separator (non-empty), and parsing continues right after it
+	return !res1 || (1 <= res0-1 && res0 <= len(text) && text[res0-1] == '/' && vs.SameBytes(c.Key, text[:res0-1]) &&
+		vs.Forall(0, res0-1, func(j int) bool { return text[j] != '/' }))
+}
+
+//@ verify (*Channel).parseChannel pre=pre_Channel post=post_parseChannel props=C09,C02
+//@ loop (*Channel).parseChannel 0 inv inv_parseChannel decreases=var_parseChannel modifies=*
+func inv_parseChannel(i int, length int, offset int, text []byte) bool {
+	return 0 <= i && i <= length && length == len(text) && 0 <= offset && offset <= i
+}
+func var_parseChannel(i int, length int) int { return length - i }
+func post_parseChannel(c *Channel, text []byte, res0 int) bool {
+	// a channel accepted as static or wildcard is a prefix of the text that ends in a separator
+	return c.ChannelType == ChannelInvalid || (len(c.Channel) >= 1 && len(c.Channel) <= len(text) && 0 <= res0 && res0 <= len(text)+1)
+}
+
+//@ verify (*Channel).parseOptions pre=pre_Channel props=C09
+//@ loop (*Channel).parseOptions 0 inv inv_parseOptions decreases=var_parseOptions modifies=*
+//@ loop (*Channel).parseOptions 1 inv inv_parseOptions_key decreases=var_parseOptions_j modifies=*
+//@ loop (*Channel).parseOptions 2 inv inv_parseOptions_val decreases=var_parseOptions_j modifies=*
+func inv_parseOptions(i, j, length int, text, key, val []byte) bool {
+	return 0 <= i && i == j && j <= length && length == len(text) && len(key) == 0 && len(val) == 0
+}
+func var_parseOptions(i, length int) int { return length - i }
+func var_parseOptions_j(j, length int) int { return length - j }
+func inv_parseOptions_key(i, j, length int, text, key, val []byte, head0_i int) bool {
+	// scanning for '=': nothing has been consumed yet
+	return i == head0_i && 0 <= i && i <= j && j <= length && length == len(text) && len(key) == 0 && len(val) == 0
+}
+func inv_parseOptions_val(i, j, length int, text, key, val []byte, head0_i int) bool {
+	// scanning for '&': a non-empty key means the cursor has moved past it
+	return head0_i <= i && 0 <= i && i <= j && j <= length && length == len(text) && (len(key) == 0 || i > head0_i) &&
+		(len(val) == 0 || (i == j && j == length)) // a value is only set at '&' (which leaves the loop) or at the very end
+}
